@@ -234,18 +234,63 @@ fn history(sc: &Value) -> Value {
             ds.sort();
             out.push(json!({"file": name, "diagnostics": ds}));
         }
-        // index-level observables: how many global declarations and type declarations the index holds
+        // index-level observables: global declarations, type declarations with where they are declared,
+        // their super types and their member names, the files every file requires
         let db = ws.analysis.compilation.get_db();
+        let label = |fid: emmylua_code_analysis::FileId| -> String {
+            match db.get_vfs().get_file_path(&fid) {
+                Some(p) => p.file_name().map(|n| n.to_string_lossy().to_string()).unwrap_or_default(),
+                None => "<file not in vfs>".to_string(),
+            }
+        };
         let mut globals: Vec<String> = db
             .get_global_index()
             .get_all_global_decl_ids()
             .iter()
-            .map(|id| format!("{}@{:?}", id.file_id.id, id.position))
+            .map(|id| {
+                let name = db.get_decl_index().get_decl(id).map(|d| d.get_name().to_string()).unwrap_or_else(|| "<dangling decl>".to_string());
+                format!("{}@{}", name, label(id.file_id))
+            })
             .collect();
         globals.sort();
-        let mut types: Vec<String> = db.get_type_index().get_all_types().iter().map(|t| t.get_full_name().to_string()).collect();
+        let mut types: Vec<String> = vec![];
+        for t in db.get_type_index().get_all_types() {
+            let mut locs: Vec<String> = t.get_locations().iter().map(|l| label(l.file_id)).collect();
+            locs.sort();
+            let mut supers: Vec<String> = db
+                .get_type_index()
+                .get_super_types(&t.get_id())
+                .unwrap_or_default()
+                .iter()
+                .map(|s| format!("{:?}", s))
+                .collect();
+            supers.sort();
+            let owner = emmylua_code_analysis::LuaMemberOwner::Type(t.get_id());
+            let mut members: Vec<String> = db
+                .get_member_index()
+                .get_members(&owner)
+                .unwrap_or_default()
+                .iter()
+                .map(|m| format!("{:?}@{}", m.get_key(), label(m.get_file_id())))
+                .collect();
+            members.sort();
+            types.push(format!("{} locs={:?} supers={:?} members={:?}", t.get_full_name(), locs, supers, members));
+        }
         types.sort();
-        out.push(json!({"index": {"global_decls": globals.len(), "types": types}}));
+        let mut requires: Vec<String> = vec![];
+        for (name, _) in files {
+            let uri = ws.virtual_url_generator.new_uri(name);
+            if let Some(fid) = ws.analysis.get_file_id(&uri) {
+                let mut r: Vec<String> = db
+                    .get_file_dependencies_index()
+                    .get_required_files(&fid)
+                    .map(|s| s.iter().map(|f| label(*f)).collect())
+                    .unwrap_or_default();
+                r.sort();
+                requires.push(format!("{} -> {:?}", name, r));
+            }
+        }
+        out.push(json!({"index": {"globals": globals, "types": types, "requires": requires}}));
         out
     }
     let mut results = vec![];
@@ -253,8 +298,32 @@ fn history(sc: &Value) -> Value {
         let id = s["id"].as_str().unwrap_or("?").to_string();
         let mut ws = VirtualWorkspace::new();
         let mut current: Vec<(String, String)> = vec![];
+        let mut remotes: Vec<(String, String)> = vec![];
         for st in s["steps"].as_array().cloned().unwrap_or_default() {
             match st["op"].as_str().unwrap_or("") {
+                "set" if st["path"].is_string() => {
+                    // a file outside every workspace root (an editor opened a loose script)
+                    let path = std::path::PathBuf::from(st["path"].as_str().unwrap_or("/outside/x.lua"));
+                    if let Some(uri) = emmylua_code_analysis::file_path_to_uri(&path) {
+                        ws.analysis.update_file_by_uri(&uri, Some(st["text"].as_str().unwrap_or("").to_string()));
+                    }
+                }
+                "remove" if st["path"].is_string() => {
+                    let path = std::path::PathBuf::from(st["path"].as_str().unwrap_or("/outside/x.lua"));
+                    if let Some(uri) = emmylua_code_analysis::file_path_to_uri(&path) {
+                        ws.analysis.remove_file_by_uri(&uri);
+                    }
+                }
+                "set_remote" => {
+                    // a document that is not a local file (non-file: uri)
+                    let u = st["uri"].as_str().unwrap_or("emmylua-remote://host/x.lua").to_string();
+                    let text = st["text"].as_str().unwrap_or("").to_string();
+                    if let Ok(uri) = <lsp_types::Uri as std::str::FromStr>::from_str(&u) {
+                        ws.analysis.update_remote_file_by_uri(&uri, Some(text.clone()));
+                        remotes.retain(|(n, _)| *n != u);
+                        remotes.push((u, text));
+                    }
+                }
                 "set" => {
                     let name = st["name"].as_str().unwrap_or("a.lua").to_string();
                     let text = st["text"].as_str().unwrap_or("").to_string();
@@ -277,8 +346,18 @@ fn history(sc: &Value) -> Value {
         }
         let got = summary(&mut ws, &current);
         let mut fresh = VirtualWorkspace::new();
-        for (n, t) in &current {
-            fresh.def_file(n, t);
+        for (u, t) in &remotes {
+            if let Ok(uri) = <lsp_types::Uri as std::str::FromStr>::from_str(u) {
+                fresh.analysis.update_remote_file_by_uri(&uri, Some(t.clone()));
+            }
+        }
+        if s["fresh"].as_str() == Some("batch") {
+            // what a full reindex is specified to equal: one analysis of all current files together
+            fresh.def_files(current.iter().map(|(n, t)| (n.as_str(), t.as_str())).collect());
+        } else {
+            for (n, t) in &current {
+                fresh.def_file(n, t);
+            }
         }
         let want = summary(&mut fresh, &current);
         let violates = got != want;
